@@ -504,8 +504,12 @@ class Concatenator(Group):  # pylint: disable=too-many-public-methods
                 object_ids.remove(as_str_if_uuid(entity.uid).encode())
                 self.concatenated_object_ids = object_ids
 
-            for field in ("surveys", "trace", "property_groups"):
-                if self.fetch_index(entity, field) is not None:
+            for field, label in (
+                ("surveys", "surveys"),
+                ("trace", "trace"),
+                ("property_groups", "property_group_ids"),
+            ):
+                if self.fetch_index(entity, label) is not None:
                     self.update_array_attribute(entity, field, remove=True)
 
         elif isinstance(entity, ConcatenatedPropertyGroup):
